@@ -14,15 +14,16 @@ E(c, ok, sig) == IF c THEN ok ELSE Rej(sig, "")
 RefInit(e) == [tag |-> "ok", ex |-> e.ex, limit |-> e.limit, conn |-> [x \in 1..Len(e.ex) |-> 0], lastOn |-> <<>>, maxOpen |-> 0]
 Cut(x) == x.cut >= 0 /\ x.cut < x.n
 \* may connection c be used again after exchange y was served on it?
-\* (extra bytes after a message do not forbid reuse by themselves: what must never happen is that they are read as a later response)
-Reusable(y) == y.persistent /\ ~Cut(y) /\ ~y.drop /\ y.framing # "eof"
+\* (extra: bytes the server wrote after the message are still unread in the socket when the exchange ends)
+Reusable(y) == y.persistent /\ ~Cut(y) /\ ~y.drop /\ ~y.extra /\ y.framing # "eof"
 RefStep(rs, e) ==
   CASE e.ev = "Open" -> E(e.open <= rs.limit, [rs EXCEPT !.maxOpen = IF e.open > @ THEN e.open ELSE @], "C17/Pool/more-connections-than-the-limit")
     [] e.ev = "Req" ->
          \* a request arriving on a connection that already served an exchange: that exchange must have been read to its end
          LET prev == {y \in 1..Len(rs.ex) : rs.conn[y] = e.c /\ y # e.x} IN
          E(\A y \in prev : Reusable(rs.ex[y]), [rs EXCEPT !.conn[e.x] = e.c],
-           IF \E y \in prev : rs.ex[y].drop THEN "C17/Pool/connection-reused-after-body-dropped-early"
+           IF \E y \in prev : rs.ex[y].extra THEN "C17/Pool/connection-with-unread-leftover-bytes-reused"
+           ELSE IF \E y \in prev : rs.ex[y].drop THEN "C17/Pool/connection-reused-after-body-dropped-early"
            ELSE "C17/Pool/non-persistent-or-cut-connection-reused")
     [] e.ev = "Resp" -> E(e.status = rs.ex[e.x].status, rs, "C17/Resp/response-of-another-exchange-or-leftovers")
     [] e.ev = "Body" ->
@@ -31,6 +32,7 @@ RefStep(rs, e) ==
          THEN E(~Cut(x), E(e.n = x.n /\ e.ok, rs, "C17/Body/delivered-body-differs"),
                 "C17/Body/short-body-reported-as-success/" \o x.framing)
          ELSE E(Cut(x) \/ x.bad, rs, "C17/Body/complete-body-reported-as-error")
+    [] e.ev = "Fail" -> Rej("C17/Fail/exchange-failed-although-the-server-answered", "")
     [] e.ev = "Panic" -> Rej("C19/Panic", "")
     [] OTHER -> rs
 =======================================================================================
